@@ -373,9 +373,13 @@ class Builder:
         return {"k": "Self", "d": self.resolve("Self")}
 
     def selfname(self):
-        # the name of local 0 of the current function (what `super` pushes as receiver)
-        sc = self.funcs[-1]["scopes"][0]
-        return sc[0][0] if sc and sc[0][0] in ("self", "Self") else ""
+        # what `super` pushes as receiver: local 0 of the innermost enclosing method (`self`, or `Self` in a static method);
+        # functions and lambdas nested in the method capture it
+        for f in reversed(self.funcs):
+            sc = f["scopes"][0]
+            if sc and sc[0][0] in ("self", "Self"):
+                return sc[0][0]
+        return ""
 
     def superinv(self, m, *args):
         n = self.selfname()
